@@ -203,7 +203,7 @@ def parseOp (h : Host) : List String → Option Line
 
 def fmtCls : Cls → String
   | .ok => "ok" | .badreq => "badreq" | .decoding => "decoding"
-  | .payment => "payment" | .hosterr => "hosterr"
+  | .payment => "payment" | .hosterr => "hosterr" | .io => "io"
 
 def fmtEv : Ev → String
   | .has r => s!"has:{r}"
